@@ -72,6 +72,9 @@ type Plan struct {
 	Tasks  [][]Op
 	Inputs [][]*big.Int
 	KeyLen []int
+	// ReuseKey[i]: task i keeps one key buffer, refills it before every Garble and passes that same
+	// slice (the usual `var key [32]byte; for { rand.Read(key[:]); Garble(...) }`)
+	ReuseKey []bool
 	Want   [][]*big.Int
 }
 
@@ -107,6 +110,7 @@ func DrawTier(t *rt.Tape, tier string) *Plan {
 		p.Inputs = append(p.Inputs, in)
 		p.Want = append(p.Want, gen.Eval(p.Circ, in))
 		p.KeyLen = append(p.KeyLen, []int{32, 16, 24}[t.Choose(rt.SGen, 3)])
+		p.ReuseKey = append(p.ReuseKey, t.Choose(rt.SGen, 2) == 0)
 	}
 	return p
 }
@@ -127,7 +131,7 @@ func CloneCircuit(c *circuit.Circuit) *circuit.Circuit {
 func (p *Plan) Describe() []string {
 	var out []string
 	for i, ops := range p.Tasks {
-		s := fmt.Sprintf("task %d (key %d bytes):", i, p.KeyLen[i])
+		s := fmt.Sprintf("task %d (key %d bytes, one reused key buffer: %v):", i, p.KeyLen[i], i < len(p.ReuseKey) && p.ReuseKey[i])
 		for _, o := range ops {
 			s += " " + o.String()
 		}
@@ -194,6 +198,7 @@ func Exec(p *Plan, circ *circuit.Circuit, task int, rnd io.Reader) *Result {
 	for _, a := range circ.Outputs {
 		outSize += int(a.Type.Bits)
 	}
+	var keyBuf []byte
 	for idx, op := range p.Tasks[task] {
 		if res.Violation != "" {
 			break
@@ -210,11 +215,18 @@ func Exec(p *Plan, circ *circuit.Circuit, task int, rnd io.Reader) *Result {
 				h.released = true
 			}
 			key := make([]byte, p.KeyLen[task])
+			if task < len(p.ReuseKey) && p.ReuseKey[task] {
+				if keyBuf == nil {
+					keyBuf = make([]byte, p.KeyLen[task])
+				}
+				key = keyBuf
+			}
 			if _, err := io.ReadFull(rnd, key); err != nil {
 				fail("harness", "rand: %v", err)
 				break
 			}
 			g, err := circ.Garble(rnd, key)
+			key = append([]byte(nil), key...) // the garbling's key, kept while the buffer is refilled
 			if err != nil {
 				fail("garble-error", "op %d: Garble: %v", idx, err)
 				break
